@@ -123,11 +123,15 @@ def _dataclass_parameters(class_: Class) -> list[tuple[str, Parameter | None]]:
                 else ParameterKind.positional_or_keyword
             )
 
-            # Determine parameter default.
-            if "default_factory" in field_args:
-                default = ExprCall(function=field_args["default_factory"], arguments=[])
+            # Determine parameter default (`MISSING` is the explicit spelling of "no default").
+            missing = {"dataclasses.MISSING"}
+            default_factory = field_args.get("default_factory")
+            if default_factory is not None and getattr(default_factory, "canonical_path", None) not in missing:
+                default = ExprCall(function=default_factory, arguments=[])
             else:
                 default = field_args.get("default", None if is_field_call else member.value)
+                if getattr(default, "canonical_path", None) in missing:
+                    default = None
 
             # Add parameter to the list.
             parameters.append(
